@@ -148,6 +148,8 @@ struct ConcCase {
     pushers: Vec<usize>, // pushes per pusher
     drains: usize,
     window_open: bool,
+    /// second recorded window: the drain may be preempted between reading the retired side's count and resetting it
+    loss_window_open: bool,
 }
 
 #[derive(Debug, Clone)]
@@ -167,7 +169,10 @@ pub fn case_conc(bytes: &[u8], sched_bytes: &[u8], ctx: &mut Ctx) -> Result<(), 
         pushers: (0..1 + src.below(3)).map(|_| 1 + src.below(4)).collect(),
         drains: 1 + src.below(3),
         window_open: src.chance(64),
+        loss_window_open: false,
     };
+    // (drawn after everything else, so that earlier replay files decode as before)
+    let case = ConcCase { loss_window_open: src.below(4) == 3, ..case };
     ctx.case(&(&case, sched_bytes));
     let r = AtomicSamplingReservoir::new(case.capacity);
     let log: Mutex<Vec<Ev>> = Mutex::new(Vec::new());
@@ -199,6 +204,7 @@ pub fn case_conc(bytes: &[u8], sched_bytes: &[u8], ctx: &mut Ctx) -> Result<(), 
     {
         let (r, log) = (&r, &log);
         let drains = case.drains;
+        let yield_inside_drain = case.loss_window_open;
         bodies.push(Box::new(move || {
             for d in 0..drains {
                 log.lock().unwrap().push(Ev::DrainStart(d));
@@ -208,7 +214,9 @@ pub fn case_conc(bytes: &[u8], sched_bytes: &[u8], ctx: &mut Ctx) -> Result<(), 
                     rate = drain.sample_rate();
                     for v in drain {
                         got.push(v.to_bits());
-                        sched::point("c16.drain_item");
+                        if yield_inside_drain {
+                            sched::point("c16.drain_item");
+                        }
                     }
                 });
                 log.lock().unwrap().push(Ev::DrainEnd(d, got, rate));
@@ -217,11 +225,23 @@ pub fn case_conc(bytes: &[u8], sched_bytes: &[u8], ctx: &mut Ctx) -> Result<(), 
         }));
     }
     let mut opts = SchedOpts::default();
-    if !case.window_open {
-        // known window (claimed slot not yet written) kept shut: never yield at push.claimed
-        opts.sites = Some(vec!["reservoir.push.flag_loaded", "reservoir.consume.swapped", "reservoir.drain.len_loaded"]);
-        ctx.excluded = Some("known-window-shut:reservoir.push.claimed");
+    // the two recorded windows are shut unless the case opens them: no yield between a push's slot claim and its
+    // store (reservoir.push.claimed), no yield between the drain's read of the count and its reset
+    // (reservoir.drain.len_loaded and the harness point inside the drain loop)
+    let mut sites = vec!["reservoir.push.flag_loaded", "reservoir.consume.swapped"];
+    if case.window_open {
+        sites.push("reservoir.push.claimed");
     }
+    if case.loss_window_open {
+        sites.push("reservoir.drain.len_loaded");
+    }
+    opts.sites = Some(sites);
+    ctx.excluded = match (case.window_open, case.loss_window_open) {
+        (false, false) => Some("known-windows-shut:reservoir.push.claimed+reservoir.drain.len_loaded"),
+        (false, true) => Some("known-window-shut:reservoir.push.claimed"),
+        (true, false) => Some("known-window-shut:reservoir.drain.len_loaded"),
+        (true, true) => None,
+    };
     let out = sched::explore(sched_bytes, opts, bodies);
     if out.budget_exhausted {
         ctx.discard = true;
@@ -300,6 +320,20 @@ pub fn case_conc(bytes: &[u8], sched_bytes: &[u8], ctx: &mut Ctx) -> Result<(), 
     }
     if all_pushed.len() > case.capacity {
         ctx.class("overflow");
+    } else {
+        // never more than the capacity in any cycle: nothing may be sampled away, so by the end (two quiescent
+        // drains, one per side) every completed push has been yielded by some drain — whichever drain a push
+        // that straddled one is counted towards
+        let missing: Vec<u64> = all_pushed.iter().copied().filter(|t| !yielded.contains_key(t)).collect();
+        let sig = if case.loss_window_open {
+            "push-lost-when-drain-resets-count"
+        } else if case.window_open {
+            "drain-reads-unwritten-slot"
+        } else {
+            "pushed-value-never-yielded"
+        };
+        ensure!(missing.is_empty(), sig, "values {:?} were pushed (every push() returned, never more than the capacity {} in flight) but no drain, not even the two at quiescence, yielded them; case {:?} trace {:?}", missing, case.capacity, case, out.trace);
+        ctx.class("all-pushes-accounted-for");
     }
     Ok(())
 }
